@@ -29,6 +29,7 @@ CLASS_SPECS = [
     dict(cls='cy2', slug='cy2', inputs=[dict(ref='cy1', how='name')]),
     dict(cls='z', slug='z', abstract=True),
     dict(cls='w', slug='g:a', params=[dict(name='x', name_in_config='xw', default=0, dtype=int)], run_params=['x']),
+    dict(cls='bsub', slug='bsub', base='b', inputs=[dict(ref='a', how='name')], pulls=['a']),
 ]
 CLSNAME = {s['cls']: 'R' + s['cls'].capitalize() + 'Task' for s in CLASS_SPECS}
 
@@ -42,7 +43,8 @@ def module():
     for s in CLASS_SPECS:
         specs.append(dict(slug=s['slug'], cls_name=CLSNAME[s['cls']], params=copy.deepcopy(s.get('params', [])),
                           run_params=list(s.get('run_params', [])), pulls=list(s.get('pulls', [])),
-                          inputs=copy.deepcopy(s.get('inputs', [])), kind='json', abstract=s.get('abstract', False)))
+                          inputs=copy.deepcopy(s.get('inputs', [])), kind='json', abstract=s.get('abstract', False),
+                          base=s.get('base')))
     return gen.make_module(specs, MODULE)
 
 
@@ -56,7 +58,7 @@ def menus(tier):
     root_uses = [[]] + [[u] for u in targets] + [[u, v] for u in targets for v in targets]
     root_tasks = [[], ['trainx'], ['a']]
     p1 = []
-    for tasks in (['a', 'b'], ['a', 'b', 'z'], ['a', 'c'], ['b'], ['a', 'w', 'pat'], ['cy1', 'cy2']):
+    for tasks in (['a', 'b'], ['a', 'b', 'z'], ['a', 'c'], ['b'], ['a', 'w', 'pat'], ['cy1', 'cy2'], ['a', 'b', 'bsub']):
         for vals in ({}, {'x': 1}):
             for uses in ([], [U('P2')], [U('P2', 'n')]):
                 if tasks in (['b'], ['cy1', 'cy2']) and vals:
@@ -180,6 +182,7 @@ def build(forest, work, rng):
              'P2': forest['p2']}
     ext = {f: ('json' if rng.random() < 0.6 else 'yaml') for f in files}
     multi = rng.random() < 0.35
+    samestem = (not multi) and rng.random() < 0.3      # P1 and P2 are both called params.<ext>, in two directories
     pm = work / f'PM.{ext["P1"]}'
 
     def ref(target, inside=None):
@@ -190,6 +193,8 @@ def build(forest, work, rng):
             if target == 'P1' and rng.random() < 0.5:
                 return str(pm)               # the part marked main_part
             return f'{pm}#{target.lower()}'
+        if samestem and target in ('P1', 'P2'):
+            return str(work / target.lower() / f'params.{ext[target]}')
         return str(work / f'{target}.{ext[target]}')
 
     docs = {}
@@ -217,7 +222,11 @@ def build(forest, work, rng):
         write(work / f'R.{ext["R"]}', docs['R'])
     else:
         for name, doc in docs.items():
-            write(work / f'{name}.{ext[name]}', doc)
+            if samestem and name in ('P1', 'P2'):
+                (work / name.lower()).mkdir(exist_ok=True)
+                write(work / name.lower() / f'params.{ext[name]}', doc)
+            else:
+                write(work / f'{name}.{ext[name]}', doc)
     counter = [0]
     srcs = forest['ctx']
     if not srcs:
